@@ -79,6 +79,7 @@ type GenCfg struct {
 	CompositeDV bool // the composite field is indexed with doc values
 	FlipOpts    bool // single field instances deviate from the options of their field
 	BadSyn      bool // zero-length synonyms are generated: such a thesaurus cannot be loaded
+	Dense       bool // few fields, few terms, batches of 1000-2100 documents
 	IDSpace     int
 	MaxToks     int
 	BigVals     bool
@@ -129,6 +130,13 @@ func genCfg(c *Chooser, wantSyn, wantVec bool) *GenCfg {
 	g := &GenCfg{}
 	nf := 1 + c.Choose(6, "cfg.nfields")
 	many := c.Prob(1, 50, "cfg.manyfields")
+	// "dense" worlds: one or two fields with one or two terms each and batches of
+	// a thousand to two thousand documents, so that single postings lists and
+	// doc-value columns cross the 1024 marks that chunking turns on - cheaply
+	dense := !many && c.Prob(1, 25, "cfg.dense")
+	if dense {
+		nf = 1 + c.Choose(2, "cfg.denseN")
+	}
 	if many {
 		// more than 255 field ids in one segment, and one field name longer than
 		// 127 bytes (both cross a varint / byte boundary of the field table)
@@ -168,6 +176,8 @@ func genCfg(c *Chooser, wantSyn, wantVec bool) *GenCfg {
 			// enough terms per field for the dictionaries of one segment to span more
 			// than 64 KiB (offsets that differ by exactly 2^16 then exist)
 			p.Vocab = genVocab(c, 14, false)
+		} else if dense {
+			p.Vocab = genVocab(c, 1+c.Choose(2, "cfg.densevocab"), i == 0)
 		} else {
 			p.Vocab = genVocab(c, vocabSizes[c.Choose(len(vocabSizes), "cfg.vocab")], i == 0)
 		}
@@ -183,9 +193,13 @@ func genCfg(c *Chooser, wantSyn, wantVec bool) *GenCfg {
 		g.MaxToks = 5
 		g.Many = true
 	}
+	if dense {
+		g.MaxToks = 1 + c.Choose(2, "cfg.densetoks")
+		g.Dense = true
+	}
 	g.WideNums = c.Prob(1, 5, "cfg.widenums")
 	g.FlipOpts = c.Prob(1, 8, "cfg.flipopts")
-	g.BigVals = c.Prob(1, 10, "cfg.bigvals")
+	g.BigVals = c.Prob(1, 10, "cfg.bigvals") && !dense
 	g.IDDocVals = c.Prob(1, 8, "cfg.iddocvals")
 	if wantSyn {
 		ns := 1 + c.Choose(2, "cfg.nsyn")
@@ -337,7 +351,7 @@ func genDoc(c *Chooser, g *GenCfg, id string) DocSpec {
 	}
 	for i := range g.Fields {
 		p := &g.Fields[i]
-		if c.Choose(4, "doc.hasfield") == 0 {
+		if c.Choose(4, "doc.hasfield") == 0 && !(g.Dense && c.Choose(4, "doc.hasfield.dense") != 0) {
 			continue
 		}
 		reps := 1
